@@ -39,6 +39,8 @@ for n in (1, 2, 3, 4, 5):
     sh(['git', '-C', '/repo', 'worktree', 'add', '--detach', wt, 'HEAD'])
     res = {}
     try:
+        if os.path.exists('/tmp/fix_tee.diff'):     # a fix: commit not yet in /repo while the sub-agents still compare against it
+            sh(['git', '-C', wt, 'apply', '/tmp/fix_tee.diff'])
         rc, out = sh(['git', '-C', wt, 'apply', pf])
         res['patch_applies'] = rc == 0
         if rc == 0:
